@@ -5,7 +5,7 @@
 
 use gpa_harness::proxy_agent_status::ProxyAgentStatusTask;
 use gpa_harness::verif::policy::Policy;
-use gpa_harness::verif::world::{self, AuditRec, World, WorldOpts, IMDS, WS};
+use gpa_harness::verif::world::{self, AuditRec, World, WorldOpts, HOSTGA, IMDS, WS};
 use serde_json::{json, Value};
 use std::collections::{BTreeMap, BTreeSet};
 use std::sync::Arc;
@@ -59,7 +59,7 @@ fn stable_headers(m: &Msg) -> Vec<(String, Vec<u8>)> {
 
 fn do_request(w: &World, callers: &[Caller], k: ReqKind, sport: u16, conn: Option<&mut Client>) -> Outcome {
     let c = &callers[k.caller];
-    let hi = if c.dest == WS { 0 } else { 2 };
+    let hi = if c.dest == WS { 0 } else if c.dest == HOSTGA { 1 } else { 2 };
     let host = w.hosts.all()[hi];
     if k.host_fails {
         host.set_responder(Arc::new(|_m: &Msg, _c, _i| Action::Reset));
@@ -123,8 +123,15 @@ fn main() {
         Caller { label: "bob", user: "bob", uid: 1002, is_root: false, exe: "/usr/bin/vt-wget", arg: "222", pid: 0, dest: IMDS },
         Caller { label: "root-waagent", user: "root", uid: 0, is_root: true, exe: "/usr/bin/vt-waagent", arg: "333", pid: 0, dest: WS },
         Caller { label: "root-ext", user: "root", uid: 0, is_root: true, exe: "/usr/bin/vt-ext", arg: "444", pid: 0, dest: WS },
+        // the same process as root-waagent, talking to the HostGAPlugin endpoint (same IP, other port)
+        Caller { label: "root-waagent@hostga", user: "root", uid: 0, is_root: true, exe: "/usr/bin/vt-waagent", arg: "333", pid: 0, dest: HOSTGA },
     ];
-    for c in callers.iter_mut() {
+    for i in 0..callers.len() {
+        if callers[i].dest == HOSTGA {
+            callers[i].pid = callers[2].pid;
+            continue;
+        }
+        let c = &mut callers[i];
         c.pid = w.spawn_proc(c.exe, &[c.arg], if c.uid == 0 { None } else { Some(c.uid) });
     }
     // the real status task, fast interval, into a private directory
@@ -149,7 +156,7 @@ fn main() {
     // quick: full alphabet to length 2; thorough: length 3 over the alphabet without the second root process
     let mut histories: Vec<Vec<ReqKind>> = Vec::new();
     for n in 1..=max_len {
-        let alpha: Vec<ReqKind> = if n == 3 { kinds.iter().filter(|k| k.caller != 3).cloned().collect() } else { kinds.clone() };
+        let alpha: Vec<ReqKind> = if n == 3 { kinds.iter().filter(|k| k.caller != 3 && !(k.caller == 4 && k.host_fails)).cloned().collect() } else { kinds.clone() };
         for seq in vcommon::explore::sequences(alpha.len(), n) {
             histories.push(seq.iter().map(|&i| alpha[i]).collect());
         }
@@ -176,6 +183,7 @@ fn main() {
         // baseline outcomes under a rule set that allows everything (mode disabled), per request kind
         w.set_rules(IMDS, policy("disabled", true).to_item());
         w.set_rules(WS, policy("disabled", true).to_item());
+        w.set_rules(HOSTGA, policy("disabled", true).to_item());
         let mut baseline: BTreeMap<ReqKind, (Result<u16, String>, Vec<(String, String, Vec<u8>, Vec<(String, Vec<u8>)>)>)> = BTreeMap::new();
         for k in &kinds {
             sport = if sport >= 35000 { 33000 } else { sport + 1 };
@@ -184,6 +192,7 @@ fn main() {
         }
         w.set_rules(IMDS, pol.to_item());
         w.set_rules(WS, pol.to_item());
+        w.set_rules(HOSTGA, pol.to_item());
         for h in &histories {
             w.rt.block_on(async { st_shared.clear_all_summary().await.unwrap() });
             let mut refsum = Summary::new();
@@ -277,6 +286,48 @@ fn main() {
                 cl.close();
             }
         }
+        // burst: many attributed connections, one denied request each, all sent before any response is read
+        // (SAMPLED family: the server-side interleaving is whatever the runtime does)
+        if pol.enforce() || pol.audit() {
+            w.rt.block_on(async { st_shared.clear_all_summary().await.unwrap() });
+            let c = &callers[1];
+            let nburst = if thorough { 600 } else { 250 };
+            let raw = build_request("POST", URLS[0], &[("Host", b"h")], Some(b"body"), None);
+            let mut conns: Vec<Client> = Vec::new();
+            let mut port = 38000u16;
+            for _ in 0..nburst {
+                port += 1;
+                conns.push(w.connect(Some(port), Some(&AuditRec::to(c.dest, c.uid, c.pid, c.is_root))).unwrap());
+                // the kernel map holds 200 records: never leave more than a few waiting to be picked up
+                // (attribution under map pressure is C06/C07's subject, not this one's)
+                let t = std::time::Instant::now();
+                while w.audit_present(port) && t.elapsed() < Duration::from_secs(10) {
+                    std::thread::sleep(Duration::from_micros(200));
+                }
+            }
+            for cl in conns.iter_mut() {
+                cl.send(&raw).unwrap();
+            }
+            let mut answered = 0u64;
+            let mut statuses: BTreeMap<String, u64> = BTreeMap::new();
+            for cl in conns.iter_mut() {
+                match cl.read_response(false, Duration::from_secs(20)) {
+                    Ok(m) => {
+                        answered += 1;
+                        *statuses.entry(m.status().to_string()).or_insert(0) += 1;
+                    }
+                    Err(e) => *statuses.entry(e).or_insert(0) += 1,
+                }
+            }
+            evals += nburst as u64;
+            let total: u64 = read_summary(&w).values().sum();
+            if total != nburst as u64 {
+                res.violation("summary:burst-count", &format!("{nburst} concurrent denied requests ({answered} answered) recorded {total} denials; client-side outcomes {statuses:?}"), json!({"mode": mode, "default_allow": default_allow, "family": "burst", "connections": nburst}));
+            }
+            for cl in conns {
+                cl.close();
+            }
+        }
     }
     for p in world::take_panics() {
         res.violation("panic", &p, json!({"note": "panic during exploration"}));
@@ -286,7 +337,7 @@ fn main() {
     res.cov("histories", hist_n);
     res.cov("status_json_comparisons", status_json_checked);
     res.cov("exhaustive", true);
-    res.cov("rule", format!("every history of <= {max_len} requests over {{alice, bob -> IMDS; two elevated root processes -> WireServer}} x 3 URLs (granted, matched-but-ungranted, unmatched) x {{host answers, host resets the connection}} (length-3 histories without the second root process), plus 5 identical denials and 6 denials on 3 concurrent keep-alive connections, under {} mode/default configurations; after every request the public failed-authorization summary is compared with the reference multiset (user, process path, command line, destination -> count); status.json of the real status task is compared for every 7th (quick: 37th) history and every 5-denial block; non-trivial = request the rules deny", configs.len()));
+    res.cov("rule", format!("every history of <= {max_len} requests over {{alice, bob -> IMDS; two elevated root processes -> WireServer, one of them also -> HostGAPlugin}} x 3 URLs (granted, matched-but-ungranted, unmatched) x {{host answers, host resets the connection}} (length-3 histories without the second root process), plus 5 identical denials, 6 denials on 3 concurrent keep-alive connections and a sampled burst of 250 (600) concurrent denied requests, under {} mode/default configurations; after every request the public failed-authorization summary is compared with the reference multiset (user, process path, command line, destination -> count); status.json of the real status task is compared for every 7th (quick: 37th) history and every 5-denial block; non-trivial = request the rules deny", configs.len()));
     res.assume("audit-mode denials are compared with the same request under an allowing rule set (status and what the host received, modulo date/MAC headers)");
     std::process::exit(res.finish());
 }
